@@ -45,6 +45,7 @@ type Dev struct {
 	NegReturnCode  string // server negotiation-response ReturnCode ("" = none)
 	PostAuthClear  bool   // server: send the post-auth ad unencrypted
 	PostAuthOther  bool   // server: send the post-auth ad under an unrelated key
+	PostAuthMarker bool   // server: one expression of the post-auth ad travels behind the in-band secret marker
 	ClaimFail      bool   // server: reject the CLAIMTOBE claim / client: send failure indicator
 	ClientAuth     string // client: level advertised for authentication ("" = as configured)
 	ClientEnc      string // client: level advertised for encryption
@@ -405,7 +406,27 @@ func Server(ctx context.Context, st *stream.Stream, o ServerOpts) (rec *Record) 
 	_ = pa.Set("SessionLease", 1800)
 	rec.PostAuth = pa
 	pm := message.NewMessageForStream(st)
-	if err := pm.PutClassAd(ctx, pa); err != nil {
+	if o.Dev.PostAuthMarker {
+		// the same ad written item by item, its last expression sent as "ZKM" + secret
+		// (marker and secret count as one expression)
+		exprs := []string{fmt.Sprintf("ReturnCode = %q", rc), fmt.Sprintf("Sid = %q", sid), fmt.Sprintf("User = %q", user), fmt.Sprintf("ValidCommands = %q", vc), "SessionDuration = 3600", "SessionLease = 1800"}
+		err := pm.PutInt(ctx, len(exprs))
+		for i, e := range exprs {
+			if err == nil && i == len(exprs)-1 {
+				err = pm.PutString(ctx, "ZKM")
+			}
+			if err == nil {
+				err = pm.PutString(ctx, e)
+			}
+		}
+		for i := 0; i < 2 && err == nil; i++ {
+			err = pm.PutString(ctx, "")
+		}
+		if err != nil {
+			rec.Err = err
+			return
+		}
+	} else if err := pm.PutClassAd(ctx, pa); err != nil {
 		rec.Err = err
 		return
 	}
